@@ -165,8 +165,11 @@ fn check_plain(ep: &EnergyPerformance, text: &str, acs: &Out<f32>, t: &mut Tally
         }
     };
     let b = &ep.balance_m2;
-    let mut bad = |name: &str, printed: Option<f64>, v: Option<f64>, d: i32, t: &mut Tally| {
+    let used_mag = (b.used.epus.abs() + b.used.nepus.abs() + b.used.cgnus.abs()) as f64;
+    let bad = |name: &str, printed: Option<f64>, v: Option<f64>, d: i32, t: &mut Tally| {
         let ok = match (printed, v) {
+            // "consumed" is an f32 sum of three printed terms: rounding relative to their magnitudes
+            (Some(p), Some(v)) if name == "consumed" => (p - v).abs() <= 0.5 * 10f64.powi(-d) + 3e-7 * used_mag,
             (Some(p), Some(v)) => printed_ok(p, v, d),
             (None, None) => true,
             _ => false,
@@ -467,7 +470,7 @@ pub fn check_case(ctx: &Ctx, case: &Case, idx: u64, with_cli: bool, t: &mut Tall
                 t.violation("C17.output_varies_between_runs", "a repeated evaluation of the same file does not produce output".into(), || wit(json!({})));
                 break;
             };
-            if !cli::reports_equal(&p0, &p1, slack) {
+            if !cli::reports_equal(&comparable_report(&p0, &rf), &comparable_report(&p1, &rf), slack) {
                 t.violation("C17.output_varies_between_runs", "the plain report of two evaluations of the same file differs (order or content)".into(), || wit(json!({"first": p0, "second": p1})));
                 break;
             }
@@ -477,7 +480,8 @@ pub fn check_case(ctx: &Ctx, case: &Case, idx: u64, with_cli: bool, t: &mut Tall
             }
             match (serde_json::from_str::<Value>(&j0), serde_json::from_str::<Value>(&j1)) {
                 (Ok(a), Ok(b)) => {
-                    if let Some(d) = super::c10::json_diff(&a, &b, "", &|p| json_band(&rf, p)) {
+                    let dhw = dhw_noise_band(&case.spec).1;
+                    if let Some(d) = super::c10::json_diff(&a, &b, "", &|p| if p.contains("fraccion_renovable") { dhw } else { json_band(&rf, p) }) {
                         t.violation("C17.output_varies_between_runs", format!("the JSON of two evaluations of the same file differs: {d}"), || wit(json!({})));
                         break;
                     }
@@ -490,7 +494,7 @@ pub fn check_case(ctx: &Ctx, case: &Case, idx: u64, with_cli: bool, t: &mut Tall
     // process level
     if with_cli {
         if let Some(bin) = &ctx.cli_debug {
-            cli_outputs(bin, case, &text, slack, t);
+            cli_outputs(bin, case, &text, slack, &rf, t);
         }
     }
     let hostile = case.spec.lines.iter().any(|l| l.comment().chars().any(|c| "<>&\"'\\".contains(c) || !c.is_ascii())) || case.spec.meta.iter().any(|(k, v)| k.chars().chain(v.chars()).any(|c| "<>&\"'\\".contains(c) || !c.is_ascii()));
@@ -512,7 +516,7 @@ pub fn check_case(ctx: &Ctx, case: &Case, idx: u64, with_cli: bool, t: &mut Tall
     }
 }
 
-fn cli_outputs(bin: &std::path::Path, case: &Case, text: &str, slack: f64, t: &mut Tally) {
+fn cli_outputs(bin: &std::path::Path, case: &Case, text: &str, slack: f64, rf: &crate::refmodel::RefOut, t: &mut Tally) {
     let dir = cli::scratch_dir("c17");
     let cpath = dir.join("c.csv");
     let _ = std::fs::write(&cpath, text);
@@ -576,7 +580,7 @@ fn cli_outputs(bin: &std::path::Path, case: &Case, text: &str, slack: f64, t: &m
                     *red2 = None;
                 }
                 if let Some((_, p, xml2, _)) = render_all(text, &c2, true) {
-                    if !cli::reports_equal(txt.trim_end(), p.trim_end(), slack) {
+                    if !cli::reports_equal(&comparable_report(txt.trim_end(), rf), &comparable_report(p.trim_end(), rf), slack) {
                         t.violation("C17.cli_report_is_not_the_library_rendering", "the report written by the program differs from the library's rendering of the same evaluation".into(), || {
                             let mut w = wit();
                             w["program"] = json!(txt);
